@@ -4,6 +4,8 @@ from harness.scen import call, LOOK_TO, GO
 
 class C17(scen.WorldProp):
     id = "C17"
+    fuzz_kinds = {"ring", "r_init", "call"}
+    fuzz_times = False
     lean_module = "Wheatley.Props.C17"
     theorems = ["Wheatley.C17.gate_iff",
                 "Wheatley.C17.look_to_refused",
